@@ -48,10 +48,35 @@ theorem eof_only_after_everything (src : Bytes) (evs : List Ev) (he : (run (Dir.
   obtain ⟨_, hc, hp⟩ := h.eofClosed he
   exact ⟨by rw [hc, hs]; rfl, hp⟩
 
+/-- A write that is pending when the *other* side goes away is still completed: after any history that lost nothing, if the source
+then fails (`srcError`: e.g. the other direction's write to it failed) and the other direction asks for the sink to be closed
+(`sinkClosed`: finishWritingAndDelete), the pending bytes are written first, so the sink has received everything that was read from
+the source so far. (The bytes a side had sent before it closed are delivered before the other side is closed.) -/
+theorem pending_write_survives_peer_closure (src : Bytes) (evs : List Ev)
+    (hl : (run (Dir.init src) evs).lost = false) :
+    (run (Dir.init src) (evs ++ [.srcError, .sinkClosed, .writeDone])).delivered = src.take (run (Dir.init src) evs).consumed ∧
+    (run (Dir.init src) (evs ++ [.srcError, .sinkClosed, .writeDone])).lost = false := by
+  have h := inv_run _ evs (inv_init src)
+  have hs := run_src (Dir.init src) evs
+  have hx := h.exact hl
+  rw [hs] at hx
+  have hsrc : (Dir.init src).src = src := rfl
+  rw [hsrc] at hx
+  simp only [run, List.foldl_append, List.foldl_cons, List.foldl_nil] at *
+  generalize List.foldl step (Dir.init src) evs = d at *
+  by_cases hp : d.pending = []
+  · simp [step, hp, hl] at *
+    exact hx
+  · simp [step, hp, hl]
+    exact hx
+
 -- non-vacuity: a history that relays [1,2,3] in two reads and then sees EOF
 example : (run (Dir.init [1, 2, 3]) [.read 2, .writeDone, .read 1, .writeDone, .eof]).delivered = [1, 2, 3] := by decide
 example : (run (Dir.init [1, 2, 3]) [.read 2, .writeDone, .read 1, .writeDone, .eof]).sawEof = true := by decide
 -- and one where the sink dies mid-way: only a prefix arrives
 example : (run (Dir.init [1, 2, 3]) [.read 2, .writeDone, .read 1, .writeError]).delivered = [1, 2] := by decide
+
+-- the back-pressure history: the second write is still pending when the source fails and the sink is to be closed
+example : (run (Dir.init [1, 2, 3]) [.read 2, .writeDone, .read 1, .srcError, .sinkClosed, .writeDone]).delivered = [1, 2, 3] := by decide
 
 end SquidModel.C06
